@@ -236,8 +236,21 @@ def r18_4(ctx):
     ctx.analysed(ca)
     ctx.analysed(lf)
     ctx.exhaustive_rules.add("R18.4")
+    def _cnum(node, depth=0):
+        """value of a module-level numeric constant expression (literals, other constants of the module, + - * //)"""
+        if isinstance(node, ast.Constant) and isinstance(node.value, (int, float)) and not isinstance(node.value, bool):
+            return node.value
+        if isinstance(node, ast.Name) and depth < 6:
+            return _cnum(p.module_constant("throttle", node.id), depth + 1)
+        if isinstance(node, ast.UnaryOp) and isinstance(node.op, ast.USub):
+            return -_cnum(node.operand, depth)
+        if isinstance(node, ast.BinOp) and isinstance(node.op, (ast.Add, ast.Sub, ast.Mult, ast.FloorDiv)):
+            l, r = _cnum(node.left, depth), _cnum(node.right, depth)
+            return {ast.Add: l + r, ast.Sub: l - r, ast.Mult: l * r, ast.FloorDiv: (l // r if r else 0)}[type(node.op)]
+        raise ValueError(ast.dump(node)[:60])
+
     try:
-        consts = {k: ast.literal_eval(p.module_constant("throttle", k)) for k in ("PURGE_TIME", "MAX_USER_ATTEMPTS", "MAX_ADDR_ATTEMPTS")}
+        consts = {k: _cnum(p.module_constant("throttle", k)) for k in ("PURGE_TIME", "MAX_USER_ATTEMPTS", "MAX_ADDR_ATTEMPTS")}
     except Exception:
         raise AnalysisError("throttle constants not evaluable")
     pa = pm_of(p, ca)
@@ -305,6 +318,9 @@ def r18_4(ctx):
             f"if {var} not in {tab}:\n    {tab}[{var}] = (1, {lnow})\nelse:\n    {tab}[{var}] = ({tab}[{var}][0] + 1, {lnow})",
             f"{tab}[{var}] = ({tab}.get({var}, (0, 0))[0] + 1, {lnow})",
             f"{tab}[{var}] = ({tab}.get({var}, (0, 0.0))[0] + 1, {lnow})",
+            # count so far (0 when unknown) in a local, then stored + 1
+            f"n_so_far = {tab}[{var}][0] if {var} in {tab} else 0\n{tab}[{var}] = (n_so_far + 1, {lnow})",
+            f"n_so_far = {tab}.get({var}, (0, 0))[0]\n{tab}[{var}] = (n_so_far + 1, {lnow})",
         ]
         if any(pm_of(p, lf).has(sh) for sh in shapes):
             ctx.ok("R18.4", where(lf), f"{key}: failure count +1 (or 1) and last-failure time = now")
